@@ -3,9 +3,9 @@ from harness import core
 from harness.props import sqlcommon as SC
 
 PID = 'C03'
-THEOREMS = ['PyDBML.C03.read_render_script_all', 'PyDBML.C04.read_render_index', 'PyDBML.C03.read_render_enum', 'PyDBML.C03.read_render_script', 'PyDBML.C03.read_render_table', 'PyDBML.C03.read_render_column', 'PyDBML.C03.same_ddl_same_content',
+THEOREMS = ['PyDBML.C03.read_render_script_ix', 'PyDBML.C03.read_render_script_all', 'PyDBML.C04.read_render_index', 'PyDBML.C03.read_render_enum', 'PyDBML.C03.read_render_script', 'PyDBML.C03.read_render_table', 'PyDBML.C03.read_render_column', 'PyDBML.C03.same_ddl_same_content',
             'PyDBML.C03.script_structure', 'PyDBML.C03.column_pk_component', 'PyDBML.C03.default_component', 'PyDBML.C15.sql_column_ignores_props']
-MODULES = ['PyDBMLProofs.Props.C03', 'PyDBMLProofs.Props.C03Read', 'PyDBMLProofs.Props.C04Read', 'PyDBMLProofs.Props.C03Script', 'PyDBMLProofs.Props.C03Index']
+MODULES = ['PyDBMLProofs.Props.C03', 'PyDBMLProofs.Props.C03Read', 'PyDBMLProofs.Props.C04Read', 'PyDBMLProofs.Props.C03Script', 'PyDBMLProofs.Props.C03Index', 'PyDBMLProofs.Props.C03ScriptIx']
 
 
 def kf_replay(f):
@@ -204,6 +204,12 @@ def gen_script_spec(rng):
         used.add(key)
         enums.append({'schema': key[0], 'name': key[1], 'items': rng.sample(ENUM_ITEMS, rng.choice([1, 2, 3, 5]))})
     spec['enums'] = enums
+    for t in spec['tables']:
+        t['indexes'] = []
+        for _ in range(rng.choice([0, 0, 1, 2])):
+            n = max(1, min(rng.choice([1, 1, 2]), len(t['columns'])))
+            t['indexes'].append({'cols': rng.sample(range(len(t['columns'])), n), 'unique': rng.random() < .4,
+                                 'name': rng.choice(INDEX_NAMES), 'type': rng.choice([None, None, 'btree', 'hash'])})
     # a reference equal to an earlier one is refused by the database: keep the first of each
     seen, refs = set(), []
     for r in spec['refs']:
@@ -223,14 +229,17 @@ def script_expect(spec):
     for e in spec['enums']:
         q = '"%s"' % e['name'] if e['schema'] == 'public' else '"%s"."%s"' % (e['schema'], e['name'])
         out.append({'kind': 'enum', 'qname': q, 'items': list(e['items'])})
-    out += [dict(kind='table', **t) for t in reader_expect(spec['tables'])]
+    ixs = index_expect(spec['tables'])
+    for t, ix in zip(reader_expect(spec['tables']), ixs):
+        out.append(dict(kind='table', **t))
+        out += [dict(kind='index', **i) for i in ix]       # each table is followed by its CREATE INDEX statements, in order
     out += [dict(kind='fk', **f) for f in c04.fk_expect(spec)]
     return out
 
 
 def script_job(spec):
     from pydbml import Database
-    from pydbml.classes import Table, Column, Expression, Enum, EnumItem, Reference
+    from pydbml.classes import Table, Column, Expression, Enum, EnumItem, Reference, Index
     db = Database()
     for e in spec['enums']:
         db.add(Enum(e['name'], [EnumItem(i) for i in e['items']], schema=e['schema']))
@@ -241,6 +250,8 @@ def script_job(spec):
             d = c['default']
             tb.add_column(Column(c['name'], c['type'], pk=c['pk'], autoinc=c['autoinc'], unique=c['unique'], not_null=c['not_null'],
                                  default=Expression(d[1]) if isinstance(d, tuple) else d))
+        for ix in t.get('indexes', []):
+            tb.add_index(Index([tb.columns[i] for i in ix['cols']], name=ix['name'], unique=ix['unique'], type=ix['type']))
         db.add(tb)
         tabs.append(tb)
     for r in spec['refs']:
@@ -262,7 +273,8 @@ def part_script(ctx, drv):
     read = drv.ask_many({'op': 'readscript', 'text': r[1] if r[0] == 'ok' else ''} for r in res)
     for spec, r, m in zip(specs, res, read):
         ctx.case(core.h(spec), True)
-        ctx.count('script-reader:%s enums=%d refs=%d' % (r[0], len(spec['enums']), min(2, len(spec['refs']))))
+        ctx.count('script-reader:%s enums=%d refs=%d indexes=%d' % (r[0], len(spec['enums']), min(2, len(spec['refs'])),
+                                                                        min(2, sum(len(t['indexes']) for t in spec['tables']))))
         case = {'op': 'readscript', 'spec': spec}
         if r[0] == 'refused':
             ctx.count('script-reader:refused ' + r[1])
@@ -273,7 +285,7 @@ def part_script(ctx, drv):
         exp = script_expect(spec)
         got = m.get('ok')
         if got != exp:
-            ctx.fail('the proved script reader does not read from db.sql what the model holds (C03Script.read_render_script_all)', case,
+            ctx.fail('the proved script reader does not read from db.sql what the model holds (C03ScriptIx.read_render_script_ix)', case,
                      detail={'expected': exp, 'read': got}, sql=r[1])
 
 
